@@ -400,6 +400,7 @@ class SimNet:
                     # loop would spin; virtual time must still advance, so fire with growing lateness
                     # (firing late is always allowed to the caller).
                     ep.spin += 1
+                    ep.spin_total = getattr(ep, "spin_total", 0) + 1
                     self.timer_spins += 1
                     late += min(0.001 * (2 ** min(ep.spin, 10)), 0.05)
                 else:
